@@ -24,6 +24,15 @@ FIELD_HOLES = [
     ("range-bound-expr", "own field", "S {{ f: == {N} - 96, .. }}", "99i32", ["f"]),
     ("nested", "outer field", "S {{ o: Some(== {N}), f: _, .. }}", "99i32", ["f"]),
     ("nested-tuple", "outer field", "S {{ t: (== {N}, _), f: _, .. }}", "99i32", ["f"]),
+    # other ways of REFERRING to the caller's variable than its plain identifier token: the raw spelling, a block, an inline format
+    # argument (the name then occurs inside a string literal only) - seed C07-12 counted identifier tokens to decide what is safe
+    ("cmp-operand-raw-spelling", "own field", "S {{ f: == r#{N}, .. }}", "99i32", ["f"]),
+    ("cmp-operand-raw-spelling", "sibling field", "S {{ f: == r#{N}, g: _, .. }}", "3i32", ["g"]),
+    ("cmp-operand-block", "sibling field", "S {{ f: == {{ {N} }}, g: _, .. }}", "3i32", ["g"]),
+    ("cmp-operand-format-capture", "sibling field", 'S {{ s: == format!("{{{N}}}"), k: _, .. }}', '"abc".to_string()', ["k"]),
+    ("cmp-operand-format-capture", "own field", 'S {{ s: == format!("{{{N}}}c"), .. }}', '"ab".to_string()', ["s"]),
+    ("closure-body-format-capture", "sibling field", 'S {{ s: |x| *x == format!("{{{N}}}"), k: _, .. }}', '"abc".to_string()', ["k"]),
+    ("index-raw-spelling", "sibling field", "S {{ xs[r#{N}]: 10, i: _, .. }}", "0usize", ["i"]),
 ]
 HELPER_HOLES = [
     ("cmp-operand", 'S {{ o: Some(== {N}), .. }}', "99i32", ["__elem_0", "__elem_1"]),
